@@ -336,14 +336,14 @@ func (f *File) ev(e hEv) {
 func (f *File) Read(p []byte) (int, error) {
 	f.t.begin()
 	n, err := f.in.Read(p)
-	f.ev(hEv{op: "read", n: int64(len(p)), err: err, cnt: int64(n), rb: append([]byte(nil), p[:max(n, 0)]...)})
+	f.ev(hEv{op: "read", n: int64(len(p)), err: err, cnt: int64(n), rb: append([]byte(nil), p[:clamp(n)]...)})
 	return n, err
 }
 
 func (f *File) ReadAt(p []byte, off int64) (int, error) {
 	f.t.begin()
 	n, err := hackpadfs.ReadAtFile(f.in, p, off)
-	f.ev(hEv{op: "readat", n: int64(len(p)), off: off, err: err, cnt: int64(n), rb: append([]byte(nil), p[:max(n, 0)]...)})
+	f.ev(hEv{op: "readat", n: int64(len(p)), off: off, err: err, cnt: int64(n), rb: append([]byte(nil), p[:clamp(n)]...)})
 	return n, err
 }
 
@@ -419,6 +419,13 @@ func (f *File) ReadDir(n int) ([]hackpadfs.DirEntry, error) {
 	ents, err := hackpadfs.ReadDirFile(f.in, n)
 	f.ev(hEv{op: "readdir", n: int64(n), err: err, cnt: int64(len(ents)), ls: listTLA(ents)})
 	return ents, err
+}
+
+func clamp(n int) int {
+	if n < 0 {
+		return 0
+	}
+	return n
 }
 
 // ---- output ----
